@@ -90,14 +90,14 @@ Proof.
   - apply (nodup_filter _ _ H).
 Qed.
 
-Definition gc_bucket (now : Z) (s : option bucket) : option bucket :=
-  match s with Some b => if lim_expired now b then None else Some b | None => None end.
+Definition gc_bucket (o : opts) (now : Z) (s : option bucket) : option bucket :=
+  match s with Some b => if lim_collect o now b then None else Some b | None => None end.
 
-Lemma lookup_gc k now t : nodup_keys t -> lim_lookup k (lim_gc now t) = gc_bucket now (lim_lookup k t).
+Lemma lookup_gc k o now t : nodup_keys t -> lim_lookup k (lim_gc o now t) = gc_bucket o now (lim_lookup k t).
 Proof.
   unfold lim_gc, nodup_keys. induction t as [|[k' b] t IH]; cbn; intros H; auto.
   inversion H; subst. cbn in *.
-  destruct (lim_expired now b) eqn:X; cbn.
+  destruct (lim_collect o now b) eqn:X; cbn.
   - destruct (addr_eqb k k') eqn:E.
     + apply addr_eqb_eq in E. subst k'. cbn. rewrite X.
       apply lookup_notin. intros Y. apply in_keys_filter in Y. contradiction.
@@ -116,7 +116,7 @@ Definition kstep (o : opts) (k : lim_addr) (s : option bucket) (e : lev) : optio
                    (match s with Some b => b | None => lim_fresh (o_burst o) now end) now n in
         (Some (snd r), Some (fst r))
       else (s, None)
-  | EvGc now => (gc_bucket now s, None)
+  | EvGc now => (gc_bucket o now s, None)
   end.
 
 Lemma step_nodup o t e : nodup_keys t -> nodup_keys (fst (lim_step o t e)).
@@ -303,11 +303,10 @@ Section Bound.
   (* one event, seen from key k *)
   Lemma kstep_cap s e tau :
     wf s tau -> tau <= ev_time e ->
-    (is_gc e = true -> burst <= 60 * rate) ->
     wf (fst (kstep o k s e)) (ev_time e) /\
     gain s e * SCALE + cap (fst (kstep o k s e)) (ev_time e) <= cap s tau + rate * (ev_time e - tau).
   Proof.
-    intros W T G. destruct e as [now a n|now]; unfold gain; cbn [kstep ev_time] in *.
+    intros W T. destruct e as [now a n|now]; unfold gain; cbn [kstep ev_time] in *.
     - destruct (addr_eqb (mask_addr o a) k) eqn:E; cbn [fst snd].
       + destruct s as [b|].
         * cbn in W. destruct W as (A & B & C).
@@ -325,16 +324,18 @@ Section Bound.
           cbn [cap]. destruct (fst (allow_bucket rate burst (lim_fresh burst now) now n)); lia.
       + split; [eapply wf_mono; eauto|].
         pose proof (cap_mono s tau now T). lia.
-    - cbn [fst snd]. specialize (G eq_refl).
+    - cbn [fst snd].
       destruct s as [b|]; cbn [gc_bucket].
-      + destruct (lim_expired now b) eqn:X.
-        * split; [exact I|]. cbn [cap]. unfold lim_expired, entry_ttl in X.
+      + destruct (lim_collect o now b) eqn:X.
+        * (* collected: the bucket is full at now, so nothing is lost *)
+          split; [exact I|]. cbn [cap].
+          unfold lim_collect, lim_full, lim_advance in X. fold rate burst in X.
           cbn in W. destruct W as (A & B & C).
+          assert (now <? b_last b = false) as E by lia. rewrite E in X.
           unfold capb.
-          assert (rate * (60 * SCALE + 1) <= rate * (tau - b_last b) + rate * (now - tau)).
-          { rewrite <- Z.mul_add_distr_l. apply Z.mul_le_mono_nonneg_l; lia. }
           assert (0 <= rate * (now - tau)) by (apply Z.mul_nonneg_nonneg; lia).
-          unfold SCALE in *. lia.
+          assert (rate * (now - b_last b) = rate * (tau - b_last b) + rate * (now - tau)) by lia.
+          lia.
         * split; [eapply wf_mono; eauto|].
           pose proof (cap_mono (Some b) tau now T). lia.
       + split; [exact I|]. cbn [cap].
@@ -357,15 +358,6 @@ Section Bound.
     assert ((t0 <=? now) && (now <=? t1) = false) as -> by lia. reflexivity.
   Qed.
 
-  Definition gc_side (h : list lev) : Prop := has_gc h = true -> burst <= 60 * rate.
-
-  Lemma gc_side_cons e h : gc_side (e :: h) -> (is_gc e = true -> burst <= 60 * rate) /\ gc_side h.
-  Proof.
-    unfold gc_side, has_gc. cbn [existsb]. intros H. split; intros X; apply H.
-    - destruct e; try discriminate. reflexivity.
-    - unfold has_gc in X. rewrite X. apply orb_true_r.
-  Qed.
-
   (* events after the window contribute nothing *)
   Lemma kadm_after h : forall s tau, lim_sorted_from tau h = true -> t1 < tau -> kadm o k t0 t1 s h = 0.
   Proof.
@@ -377,22 +369,21 @@ Section Bound.
 
   (* inside the window *)
   Lemma kadm_window h : forall s tau,
-    lim_sorted_from tau h = true -> t0 <= tau -> tau <= t1 -> wf s tau -> gc_side h ->
+    lim_sorted_from tau h = true -> t0 <= tau -> tau <= t1 -> wf s tau ->
     kadm o k t0 t1 s h * SCALE <= cap s tau + rate * (t1 - tau) + (rate - 1).
   Proof.
-    induction h as [|e h IH]; intros s tau S T0 T1 W G.
+    induction h as [|e h IH]; intros s tau S T0 T1 W.
     - cbn [kadm]. pose proof (cap_gt s tau W).
       assert (0 <= rate * (t1 - tau)) by (apply Z.mul_nonneg_nonneg; lia). lia.
     - pose proof S as S'. cbn in S. apply andb_true_iff in S. destruct S as [S1 S2].
-      apply gc_side_cons in G. destruct G as [G1 G2].
       destruct (Z_lt_le_dec t1 (ev_time e)) as [L|L].
       + rewrite (kadm_after (e :: h) s (ev_time e)); [| |exact L].
         * pose proof (cap_gt s tau W).
           assert (0 <= rate * (t1 - tau)) by (apply Z.mul_nonneg_nonneg; lia). lia.
         * cbn. rewrite S2. rewrite Z.leb_refl. reflexivity.
       + assert (tau <= ev_time e) as T by lia.
-        destruct (kstep_cap s e tau W T G1) as [W1 C1].
-        specialize (IH (fst (kstep o k s e)) (ev_time e) S2 ltac:(lia) L W1 G2).
+        destruct (kstep_cap s e tau W T) as [W1 C1].
+        specialize (IH (fst (kstep o k s e)) (ev_time e) S2 ltac:(lia) L W1).
         cbn [kadm].
         rewrite gainw_in by lia.
         assert (rate * (t1 - tau) = rate * (ev_time e - tau) + rate * (t1 - ev_time e)) by lia.
@@ -401,19 +392,18 @@ Section Bound.
 
   (* the whole history: events before the window only move the state *)
   Lemma kadm_bound h : forall s tau,
-    lim_sorted_from tau h = true -> wf s tau -> gc_side h -> t0 <= t1 ->
+    lim_sorted_from tau h = true -> wf s tau -> t0 <= t1 ->
     kadm o k t0 t1 s h * SCALE <= burst * SCALE + rate * (t1 - t0) + (rate - 1).
   Proof.
-    induction h as [|e h IH]; intros s tau S W G T01.
+    induction h as [|e h IH]; intros s tau S W T01.
     - cbn [kadm]. assert (0 <= rate * (t1 - t0)) by (apply Z.mul_nonneg_nonneg; lia).
       unfold SCALE. lia.
     - pose proof S as S'. cbn in S. apply andb_true_iff in S. destruct S as [S1 S2].
       assert (tau <= ev_time e) as T by lia.
       destruct (Z_lt_le_dec (ev_time e) t0) as [L|L].
       + (* before the window *)
-        pose proof G as G'. apply gc_side_cons in G'. destruct G' as [G1 G2].
-        destruct (kstep_cap s e tau W T G1) as [W1 _].
-        specialize (IH (fst (kstep o k s e)) (ev_time e) S2 W1 G2 T01).
+        destruct (kstep_cap s e tau W T) as [W1 _].
+        specialize (IH (fst (kstep o k s e)) (ev_time e) S2 W1 T01).
         cbn [kadm].
         rewrite gainw_out by lia.
         lia.
@@ -423,7 +413,7 @@ Section Bound.
           -- cbn. rewrite S2. rewrite Z.leb_refl. reflexivity.
         * assert (lim_sorted_from (ev_time e) (e :: h) = true) as S3.
           { cbn. rewrite S2. rewrite Z.leb_refl. reflexivity. }
-          pose proof (kadm_window (e :: h) s (ev_time e) S3 L L1 (wf_mono _ _ _ W T) G) as B.
+          pose proof (kadm_window (e :: h) s (ev_time e) S3 L L1 (wf_mono _ _ _ W T)) as B.
           pose proof (cap_le_burst s (ev_time e)).
           assert (rate * (t1 - ev_time e) <= rate * (t1 - t0)) by (apply Z.mul_le_mono_nonneg_l; lia).
           lia.
@@ -436,36 +426,19 @@ Proof.
   destruct h as [|e h]; cbn; auto. intros H. rewrite H, Z.leb_refl. reflexivity.
 Qed.
 
-(* C15 window bound, for histories from the empty table *)
+(* C15 window bound, for histories (arrivals and collector runs) from the empty table *)
 Lemma bound_general o k t0 t1 h :
-  0 < o_limit o -> 0 <= o_burst o -> lim_sorted h = true ->
-  (has_gc h = true -> o_burst o <= 60 * o_limit o) -> t0 <= t1 ->
+  0 < o_limit o -> 0 <= o_burst o -> lim_sorted h = true -> t0 <= t1 ->
   lim_granted o k t0 t1 h (lim_decisions o [] h) * SCALE
     <= o_burst o * SCALE + o_limit o * (t1 - t0) + (o_limit o - 1).
 Proof.
-  intros R B S G T.
+  intros R B S T.
   rewrite granted_kadm by apply nodup_nil. cbn [lim_lookup].
   destruct h as [|e h].
   - cbn. assert (0 <= o_limit o * (t1 - t0)) by (apply Z.mul_nonneg_nonneg; lia). unfold SCALE. lia.
   - apply (kadm_bound o k R B t0 t1 (e :: h) None (ev_time e)); auto.
     + apply (sorted_sorted_from (e :: h) S).
     + exact I.
-Qed.
-
-Lemma bound_nogc o k t0 t1 h :
-  0 < o_limit o -> 0 <= o_burst o -> lim_sorted h = true -> has_gc h = false -> t0 <= t1 ->
-  lim_granted o k t0 t1 h (lim_decisions o [] h) * SCALE
-    <= o_burst o * SCALE + o_limit o * (t1 - t0) + (o_limit o - 1).
-Proof.
-  intros R B S G T. apply bound_general; auto. rewrite G. discriminate.
-Qed.
-
-Lemma bound_gc o k t0 t1 h :
-  0 < o_limit o -> 0 <= o_burst o -> lim_sorted h = true -> o_burst o <= 60 * o_limit o -> t0 <= t1 ->
-  lim_granted o k t0 t1 h (lim_decisions o [] h) * SCALE
-    <= o_burst o * SCALE + o_limit o * (t1 - t0) + (o_limit o - 1).
-Proof.
-  intros R B S G T. apply bound_general; auto.
 Qed.
 
 (* ------------------------------------------------------------------ defaults and masking *)
@@ -574,8 +547,10 @@ Proof. intros H. destruct a; [reflexivity|reflexivity|contradiction]. Qed.
 
 (* ------------------------------------------------------------------ witnesses *)
 
-(* K3: burst 1000 > 60 * rate 1.  The client spends its burst at t = 0, the collector runs just after one
-   minute of silence and drops the entry, the client comes back and gets a second full burst. *)
+(* Former finding K3 (repaired): burst 1000 > 60 * rate 1.  The client spends its burst at t = 0 and comes back just
+   after one minute of silence.  The collector, running in between, used to drop the idle entry, and the client got
+   a second full burst; now the entry is kept (its bucket has refilled only 60 of 1000 tokens) and the second
+   arrival is refused, exactly as without the collector.  After 1000 s of silence the entry is full and is dropped. *)
 Definition k3_opts : opts := mkOpts 1 1000 24 48.
 Definition k3_client : lim_addr := LA4 3232235777%N.                       (* 192.168.1.1 *)
 Definition k3_t : Z := 60 * SCALE + 1.
@@ -584,11 +559,15 @@ Definition k3_history : list lev :=
 Definition k3_key : lim_addr := mask_addr k3_opts k3_client.
 
 Lemma k3_witness :
-  lim_sorted k3_history = true /\
-  lim_decisions k3_opts [] k3_history = [Some true; None; Some true] /\
-  bound_ok k3_opts k3_key 0 k3_t k3_history = false /\
-  lim_decisions k3_opts [] [EvAllow 0 k3_client 1000; EvAllow k3_t k3_client 1000] = [Some true; Some false].
-Proof. vm_compute. auto. Qed.
+  lim_sorted k3_history = true /\ has_gc k3_history = true /\
+  lim_decisions k3_opts [] k3_history = [Some true; None; Some false] /\
+  bound_ok k3_opts k3_key 0 k3_t k3_history = true /\
+  lim_decisions k3_opts [] [EvAllow 0 k3_client 1000; EvAllow k3_t k3_client 1000] = [Some true; Some false] /\
+  lim_lookup k3_key (lim_final k3_opts [] [EvAllow 0 k3_client 1000; EvGc k3_t]) <> None /\
+  lim_lookup k3_key (lim_final k3_opts [] [EvAllow 0 k3_client 1000; EvGc (1000 * SCALE)]) = None /\
+  lim_decisions k3_opts [] [EvAllow 0 k3_client 1000; EvGc (1000 * SCALE); EvAllow (1000 * SCALE) k3_client 1000]
+    = [Some true; None; Some true].
+Proof. vm_compute. repeat split; try reflexivity. discriminate. Qed.
 
 (* the one-nanosecond slack of the bound is attained: rate 3/s, burst 1; after 333 333 333 ns the bucket
    holds 0.999999999 token and x/time/rate grants (the wait would be 1/3 ns, truncated to 0) *)
@@ -599,3 +578,289 @@ Lemma slack_witness :
   lim_granted slack_opts (mask_addr slack_opts k3_client) 0 333333333 slack_history (lim_decisions slack_opts [] slack_history) * SCALE
     = o_burst slack_opts * SCALE + o_limit slack_opts * (333333333 - 0) + 1.
 Proof. vm_compute. auto. Qed.
+
+(* ------------------------------------------------------------------ the router's configuration mapping *)
+
+Lemma cfg_mask4_range c : 1 <= cfg_mask4 c <= 32.
+Proof. unfold cfg_mask4. destruct ((1 <=? lc_v4 c) && (lc_v4 c <=? 32)) eqn:E; lia. Qed.
+
+Lemma cfg_mask6_range c : 1 <= cfg_mask6 c <= 128.
+Proof. unfold cfg_mask6. destruct ((1 <=? lc_v6 c) && (lc_v6 c <=? 128)) eqn:E; lia. Qed.
+
+(* the effective options of the router's client limiter: rate and burst as configured (burst omitted = rate),
+   the v4 mask from v4_mask, the v6 mask from v6_mask, /24 and /48 when omitted or out of range *)
+Lemma config_opts c : 0 < lc_limit c ->
+  cfg_client c = Some (mkOpts (lc_limit c) (if lc_burst c <=? 0 then lc_limit c else lc_burst c)
+                              (cfg_mask4 c) (cfg_mask6 c)).
+Proof.
+  intros H. unfold cfg_client, init_client, cfg_opts, set_default, cfg_mask4, cfg_mask6. cbn [o_limit o_burst o_v4 o_v6].
+  assert (0 <? lc_limit c = true) as -> by lia.
+  assert (lc_limit c <=? 0 = false) as -> by lia.
+  f_equal. f_equal.
+  - destruct ((lc_v4 c <=? 0) || (32 <? lc_v4 c)) eqn:A; destruct ((1 <=? lc_v4 c) && (lc_v4 c <=? 32)) eqn:B; lia.
+  - destruct ((lc_v6 c <=? 0) || (128 <? lc_v6 c)) eqn:A; destruct ((1 <=? lc_v6 c) && (lc_v6 c <=? 128)) eqn:B; lia.
+Qed.
+
+Lemma config_no_client c : lc_limit c <= 0 -> cfg_client c = None.
+Proof. intros H. unfold cfg_client, init_client, cfg_opts. cbn. assert (0 <? lc_limit c = false) as -> by lia. reflexivity. Qed.
+
+Lemma config_client_default c o : cfg_client c = Some o -> o = set_default (cfg_opts c).
+Proof. unfold cfg_client, init_client. destruct (0 <? o_limit (cfg_opts c)); congruence. Qed.
+
+(* masking with the effective options = truncation to the configured mask of the address's family *)
+Lemma config_mask c o a : o_v4 o = cfg_mask4 c -> o_v6 o = cfg_mask6 c -> mask_addr o a = cfg_subnet c a.
+Proof.
+  intros A B. unfold mask_addr, cfg_subnet. destruct (lim_unmap a) as [x|x|]; auto.
+  - unfold prefix_addr4. rewrite A. pose proof (cfg_mask4_range c).
+    assert ((0 <=? cfg_mask4 c) && (cfg_mask4 c <=? 32) = true) as -> by lia.
+    now rewrite mask_bits_spec.
+  - unfold prefix_addr6. rewrite B. pose proof (cfg_mask6_range c).
+    assert ((0 <=? cfg_mask6 c) && (cfg_mask6 c <=? 128) = true) as -> by lia.
+    now rewrite mask_bits_spec.
+Qed.
+
+Lemma config_key c a : 0 < lc_limit c -> cfg_key c a = Some (cfg_subnet c a).
+Proof.
+  intros H. unfold cfg_key. rewrite (config_opts c H). f_equal. now apply config_mask.
+Qed.
+
+Lemma config_client_mask c o a : cfg_client c = Some o -> mask_addr o a = cfg_subnet c a.
+Proof.
+  intros H. destruct (Z_lt_le_dec 0 (lc_limit c)) as [L|L].
+  - rewrite (config_opts c L) in H. inversion H; subst o. now apply config_mask.
+  - rewrite (config_no_client c L) in H. discriminate.
+Qed.
+
+(* a client's subnet depends on the configured mask of its own family only *)
+Lemma config_subnet_v4 c c' x : lc_v4 c = lc_v4 c' -> cfg_subnet c (LA4 x) = cfg_subnet c' (LA4 x).
+Proof. intros H. unfold cfg_subnet, cfg_mask4. cbn [lim_unmap]. now rewrite H. Qed.
+
+Lemma config_subnet_v6 c c' x : lc_v6 c = lc_v6 c' -> (x / two32 <> 65535)%N ->
+  cfg_subnet c (LA6 x) = cfg_subnet c' (LA6 x).
+Proof.
+  intros H M. unfold cfg_subnet, cfg_mask6. rewrite unmap_spec.
+  assert ((x / two32 =? 65535)%N = false) as -> by (apply N.eqb_neq; exact M). now rewrite H.
+Qed.
+
+Lemma config_subnet_mapped c x : (x < two32)%N -> cfg_subnet c (LA6 (65535 * two32 + x)) = cfg_subnet c (LA4 x).
+Proof.
+  intros H. unfold cfg_subnet. rewrite unmap_spec.
+  assert (((65535 * two32 + x) / two32 =? 65535)%N = true) as ->.
+  { apply N.eqb_eq. unfold two32 in *. lia. }
+  assert (((65535 * two32 + x) mod two32)%N = x) as ->.
+  { unfold two32 in *. lia. }
+  reflexivity.
+Qed.
+
+Lemma trunc_eq (s x y : N) : (x / 2 ^ s * 2 ^ s = y / 2 ^ s * 2 ^ s <-> x / 2 ^ s = y / 2 ^ s)%N.
+Proof.
+  split; intros H; [|now rewrite H].
+  assert (2 ^ s <> 0)%N as P by (apply N.pow_nonzero; discriminate).
+  apply N.mul_cancel_r in H; auto.
+Qed.
+
+(* two clients of one family share a subnet iff they agree on the first <configured mask of that family> bits *)
+Lemma config_same_v4 c x y :
+  cfg_subnet c (LA4 x) = cfg_subnet c (LA4 y) <->
+  (x / 2 ^ (32 - Z.to_N (cfg_mask4 c)) = y / 2 ^ (32 - Z.to_N (cfg_mask4 c)))%N.
+Proof.
+  unfold cfg_subnet. cbn [lim_unmap]. rewrite <- trunc_eq. split; intros H; [now inversion H|now rewrite H].
+Qed.
+
+Lemma config_same_v6 c x y : (x / two32 <> 65535)%N -> (y / two32 <> 65535)%N ->
+  cfg_subnet c (LA6 x) = cfg_subnet c (LA6 y) <->
+  (x / 2 ^ (128 - Z.to_N (cfg_mask6 c)) = y / 2 ^ (128 - Z.to_N (cfg_mask6 c)))%N.
+Proof.
+  intros A B. unfold cfg_subnet. rewrite !unmap_spec.
+  assert ((x / two32 =? 65535)%N = false) as -> by (apply N.eqb_neq; exact A).
+  assert ((y / two32 =? 65535)%N = false) as -> by (apply N.eqb_neq; exact B).
+  rewrite <- trunc_eq. split; intros H; [now inversion H|now rewrite H].
+Qed.
+
+(* ---- the composed system: router.limiterAllowN over the limiter built from a configuration ---- *)
+
+Definition rl_conv (d : option bool) : rl_res := match d with Some false => RlClient | _ => RlOk end.
+
+(* results for key k computed on its own bucket only *)
+Fixpoint rl_kres (o : opts) (k : lim_addr) (s : option bucket) (h : list rl_arrival) : list rl_res :=
+  match h with
+  | [] => []
+  | (now, a, n) :: h' =>
+      if addr_eqb (mask_addr o a) k then
+        match a with
+        | LANone => RlOk :: rl_kres o k s h'
+        | _ => rl_conv (snd (kstep o k s (EvAllow now a n))) :: rl_kres o k (fst (kstep o k s (EvAllow now a n))) h'
+        end
+      else rl_kres o k s h'
+  end.
+
+Lemma rl_results_kres c o k h : (forall a, mask_addr o a = cfg_subnet c a) ->
+  forall t, nodup_keys t ->
+  rl_results_for c k h (rl_decisions (mkRl None (Some (o, t))) h) = rl_kres o k (lim_lookup k t) h.
+Proof.
+  intros M. induction h as [|[[now a] n] h IH]; intros t H; cbn [rl_decisions rl_results_for rl_kres]; auto.
+  rewrite <- M.
+  destruct a as [x|x|].
+  - rewrite rl_allow_client by discriminate. cbn [fst snd].
+    rewrite (IH _ (step_nodup o t _ H)), (step_lookup o k t _ H).
+    destruct (addr_eqb (mask_addr o (LA4 x)) k) eqn:E.
+    + rewrite (step_decision o k t (EvAllow now (LA4 x) n)) by exact E. reflexivity.
+    + rewrite (kstep_untouched o k _ (EvAllow now (LA4 x) n)) by exact E. reflexivity.
+  - rewrite rl_allow_client by discriminate. cbn [fst snd].
+    rewrite (IH _ (step_nodup o t _ H)), (step_lookup o k t _ H).
+    destruct (addr_eqb (mask_addr o (LA6 x)) k) eqn:E.
+    + rewrite (step_decision o k t (EvAllow now (LA6 x) n)) by exact E. reflexivity.
+    + rewrite (kstep_untouched o k _ (EvAllow now (LA6 x) n)) by exact E. reflexivity.
+  - cbn [rl_allow fst snd]. rewrite (IH _ H). reflexivity.
+Qed.
+
+Lemma rl_kres_filter o k h : forall s,
+  rl_kres o k s h = rl_kres o k s (filter (fun e : rl_arrival => addr_eqb (mask_addr o (snd (fst e))) k) h).
+Proof.
+  induction h as [|[[now a] n] h IH]; intros s; cbn [filter rl_kres fst snd]; auto.
+  destruct (addr_eqb (mask_addr o a) k) eqn:E.
+  - cbn [rl_kres]. rewrite E. destruct a; rewrite <- !IH; reflexivity.
+  - apply IH.
+Qed.
+
+Lemma rl_of_config_client c t0 : lc_global c <= 0 -> 0 < lc_limit c ->
+  rl_of_config c t0 = mkRl None (Some (set_default (cfg_opts c), [])).
+Proof.
+  intros G L. unfold rl_of_config, rl_init, init_client, cfg_opts. cbn [o_limit].
+  assert (0 <? lc_global c = false) as -> by lia.
+  assert (0 <? lc_limit c = true) as -> by lia. reflexivity.
+Qed.
+
+(* isolation for the router's limiter as configured (no global limit): what the clients of subnet k are told
+   depends only on the arrivals from subnet k, subnets being the property's (configured mask of the family) *)
+Lemma config_isolation c k t0 h : lc_global c <= 0 -> 0 < lc_limit c ->
+  rl_results_for c k h (rl_decisions (rl_of_config c t0) h) =
+  rl_results_for c k (filter (rl_from_subnet c k) h) (rl_decisions (rl_of_config c t0) (filter (rl_from_subnet c k) h)).
+Proof.
+  intros G L. rewrite (rl_of_config_client c t0 G L).
+  assert (forall a, mask_addr (set_default (cfg_opts c)) a = cfg_subnet c a) as M.
+  { intros a. apply config_client_mask. unfold cfg_client, init_client, cfg_opts. cbn [o_limit].
+    assert (0 <? lc_limit c = true) as -> by lia. reflexivity. }
+  rewrite !(rl_results_kres c _ k _ M) by apply nodup_nil.
+  rewrite rl_kres_filter.
+  f_equal. apply filter_ext. intros [[now a] n]. unfold rl_from_subnet. cbn [fst snd]. now rewrite M.
+Qed.
+
+(* the window bound for the limiter as configured *)
+Lemma config_bound c o k t0 t1 h : cfg_client c = Some o ->
+  lim_sorted h = true -> t0 <= t1 ->
+  lim_granted o k t0 t1 h (lim_decisions o [] h) * SCALE
+    <= o_burst o * SCALE + o_limit o * (t1 - t0) + (o_limit o - 1).
+Proof.
+  intros C S T. apply config_client_default in C. subst o.
+  pose proof (default_wf (cfg_opts c)) as W. cbn zeta in W.
+  apply bound_general; auto; lia.
+Qed.
+
+(* ------------------------------------------------------------------ the collector is unobservable *)
+
+Definition not_gc (e : lev) : bool := match e with EvGc _ => false | _ => true end.
+
+Section GcUnobservable.
+  Variable o : opts.
+  Variable k : lim_addr.
+  Hypothesis Hrate : 0 < o_limit o.
+  Hypothesis Hburst : 0 <= o_burst o.
+
+  (* two states of key k that no future arrival can tell apart: the same tokens at every later time *)
+  Definition eqv (tau : Z) (s s' : option bucket) : Prop :=
+    wf o s tau /\ wf o s' tau /\ forall t, tau <= t -> cap o s t = cap o s' t.
+
+  Lemma eqv_mono tau tau' s s' : eqv tau s s' -> tau <= tau' -> eqv tau' s s'.
+  Proof.
+    intros (A & B & C) H. split; [eapply wf_mono; eauto|]. split; [eapply wf_mono; eauto|].
+    intros t T. apply C. lia.
+  Qed.
+
+  Lemma advance_capb b now : b_last b <= now -> lim_advance (o_limit o) (o_burst o) b now = capb o b now.
+  Proof. intros H. unfold lim_advance, capb. assert (now <? b_last b = false) as -> by lia. reflexivity. Qed.
+
+  (* the bucket an arrival at [now] works on, and what it sees in it *)
+  Definition the_bucket (s : option bucket) (now : Z) : bucket :=
+    match s with Some b => b | None => lim_fresh (o_burst o) now end.
+
+  Lemma the_bucket_adv s now : wf o s now ->
+    lim_advance (o_limit o) (o_burst o) (the_bucket s now) now = cap o s now.
+  Proof.
+    destruct s as [b|]; cbn [the_bucket cap].
+    - intros (A & B & C). apply advance_capb. lia.
+    - intros _. rewrite advance_capb by (cbn; lia). unfold capb, lim_fresh. cbn [b_tok b_last]. lia.
+  Qed.
+
+  Lemma cap_some_after b t : capb o b t = cap o (Some b) t.
+  Proof. reflexivity. Qed.
+
+  (* an arrival of key k at now >= tau: same decision, indistinguishable states *)
+  Lemma eqv_allow tau s s' now a n :
+    eqv tau s s' -> tau <= now -> addr_eqb (mask_addr o a) k = true ->
+    snd (kstep o k s (EvAllow now a n)) = snd (kstep o k s' (EvAllow now a n)) /\
+    eqv now (fst (kstep o k s (EvAllow now a n))) (fst (kstep o k s' (EvAllow now a n))).
+  Proof.
+    intros E T K. pose proof (eqv_mono tau now s s' E T) as (W & W' & C).
+    cbn [kstep]. rewrite K. cbn [fst snd]. fold (the_bucket s now) (the_bucket s' now).
+    unfold allow_bucket, lim_margin.
+    rewrite (the_bucket_adv s now W), (the_bucket_adv s' now W'), <- (C now (Z.le_refl _)).
+    destruct ((n <=? o_burst o) && (0 <? cap o s now - n * SCALE + o_limit o)) eqn:D; cbn [fst snd].
+    - split; [reflexivity|].
+      assert (wf o (Some (mkBucket (cap o s now - n * SCALE) now now)) now) as X by (cbn; unfold wfb; cbn; lia).
+      split; [exact X|]. split; [exact X|]. reflexivity.
+    - split; [reflexivity|].
+      assert (forall x, wf o x now -> wf o (Some (mkBucket (b_tok (the_bucket x now)) (b_last (the_bucket x now)) now)) now) as X.
+      { intros [b|]; cbn; unfold wfb; cbn; [intros (P & Q & R); lia|unfold SCALE; lia]. }
+      assert (forall x t, wf o x now -> now <= t ->
+                cap o (Some (mkBucket (b_tok (the_bucket x now)) (b_last (the_bucket x now)) now)) t = cap o x t) as Y.
+      { intros [b|] t Wx Tt; cbn [cap the_bucket]; unfold capb; cbn [b_tok b_last lim_fresh]; [reflexivity|].
+        assert (0 <= o_limit o * (t - now)) by (apply Z.mul_nonneg_nonneg; lia). lia. }
+      split; [now apply X|]. split; [now apply X|].
+      intros t Tt. rewrite (Y s t W Tt), (Y s' t W' Tt). apply C. exact Tt.
+  Qed.
+
+  (* a collector run at now >= tau changes nothing a later arrival could see *)
+  Lemma eqv_gc tau s s' now : eqv tau s s' -> tau <= now -> eqv now (gc_bucket o now s) s'.
+  Proof.
+    intros E0 T. pose proof (eqv_mono tau now s s' E0 T) as E. destruct s as [b|]; cbn [gc_bucket]; [|exact E].
+    destruct (lim_collect o now b) eqn:X; [|exact E].
+    destruct E as (W & W' & C). split; [exact I|]. split; [exact W'|].
+    intros t Tt. rewrite <- (C t Tt). cbn [cap].
+    unfold lim_collect, lim_full in X. destruct W as (P & Q & R).
+    rewrite advance_capb in X by lia. unfold capb in *.
+    assert (o_limit o * (now - b_last b) <= o_limit o * (t - b_last b)) by (apply Z.mul_le_mono_nonneg_l; lia).
+    lia.
+  Qed.
+
+  Lemma kdec_gc_free h : forall tau s s', lim_sorted_from tau h = true -> eqv tau s s' ->
+    kdec o k s h = kdec o k s' (filter not_gc h).
+  Proof.
+    induction h as [|e h IH]; intros tau s s' S E; [reflexivity|].
+    cbn in S. apply andb_true_iff in S. destruct S as [S1 S2]. apply Z.leb_le in S1.
+    destruct e as [now a n|now]; cbn [filter not_gc ev_time] in *.
+    - destruct (addr_eqb (mask_addr o a) k) eqn:K.
+      + destruct (eqv_allow tau s s' now a n E S1 K) as [D E'].
+        cbn [kdec]. rewrite <- D.
+        destruct (snd (kstep o k s (EvAllow now a n))); [f_equal|]; apply (IH now); auto.
+      + cbn [kdec]. rewrite !(kstep_untouched o k _ (EvAllow now a n)) by (cbn; exact K). cbn [fst snd].
+        apply (IH now); [exact S2|]. exact (eqv_mono tau now s s' E S1).
+    - cbn [kdec kstep fst snd]. apply (IH now); [exact S2|]. exact (eqv_gc tau s s' now E S1).
+  Qed.
+End GcUnobservable.
+
+Lemma touches_filter_not_gc o k h :
+  lim_decisions_for o k (filter not_gc h) (lim_decisions o [] (filter not_gc h)) = kdec o k None (filter not_gc h).
+Proof. rewrite decisions_for_kdec by apply nodup_nil. reflexivity. Qed.
+
+(* the decisions taken for any subnet are the decisions taken when the collector never runs *)
+Lemma gc_unobservable o k h : 0 < o_limit o -> 0 <= o_burst o -> lim_sorted h = true ->
+  lim_decisions_for o k h (lim_decisions o [] h) =
+  lim_decisions_for o k (filter not_gc h) (lim_decisions o [] (filter not_gc h)).
+Proof.
+  intros R B S. rewrite touches_filter_not_gc, decisions_for_kdec by apply nodup_nil. cbn [lim_lookup].
+  destruct h as [|e h]; [reflexivity|].
+  apply (kdec_gc_free o k R B (e :: h) (ev_time e)).
+  - apply (sorted_sorted_from (e :: h) S).
+  - split; [exact I|]. split; [exact I|]. reflexivity.
+Qed.
